@@ -240,6 +240,8 @@ def plan(tier, seed):
     jobs = [{"sub": "grid_exh", "ps": [1, 2, 3], "shard": 0, "nshards": 1, "seed": seed, "cost": 2}]
     for n in range(12 if tier == "quick" else 60):
         jobs.append({"sub": "dense_big", "seed": seed, "index": n, "cost": 7})
+    for n in (100, 101, 102, 103):      # hundreds of insertions on a dense 72 / 90-node DAG (path counts beyond 2^63 on the way)
+        jobs.append({"sub": "dense_big", "seed": seed, "index": n, "cost": 40})
     for n, (p, op) in enumerate([(1200, "add"), (1300, "remove")] + ([(1500, "add"), (2000, "add")] if tier == "thorough" else [])):
         jobs.append({"sub": "long_path", "seed": seed, "p": p, "op": op, "cost": 50})
     for k in range(16):
@@ -258,13 +260,28 @@ def run(job):
         p = [66, 72, 80, 90, 100, 64][n % 6]
         a = next(x for x in range(p // 3 + (job["seed"] + n) % 7, p) if np.gcd(x, p) == 1)
         nm = [3, 5, 1, 30, 8, 2][(n // 2) % 6]
+        if n >= 100:
+            p, nm = [72, 90, 80, 90][n - 100], [170, 190, 0, 0][n - 100]
+            a = next(x for x in range(p // 3 + (job["seed"] + n) % 7, p) if np.gcd(x, p) == 1)
         missing = []
+        if n == 103:
+            a = 1                      # the same family in the natural order, a few of the longest edges missing as well
+            order = [(i + 1) % p for i in range(p)]
+            missing = [[order[i], order[i + d]] for d in (1, 2) for i in range(p - d)] + \
+                      [[order[x], order[y]] for (x, y) in [(0, p - 1), (0, p - 2), (1, p - 1), (1, p - 2), (2, p - 1), (0, p - 3)]]
+        if n == 102:
+            # every edge between nodes one or two steps apart in the causal order is missing (the long ones are all there):
+            # putting them back multiplies the number of directed paths at every step
+            order = [(a * i + 1) % p for i in range(p)]
+            missing = [[order[i], order[i + d]] for d in (1, 2) for i in range(p - d)]
         for t in range(nm):
-            i, j = (5 * t + n + job["seed"]) % p, (9 * t + 3 * n + 1) % p
+            i, j = (5 * t + n + job["seed"]) % p, (9 * t + 3 * n + 1 + (t // p)) % p
             if i != j and [i, j] not in missing and [j, i] not in missing:
                 missing.append([i, j])
-        op = "add" if n % 3 else "remove"
+        op = "add" if (n % 3 or n >= 100) else "remove"
         k = [len(missing), 1, len(missing) + 1, max(len(missing) - 1, 0)][n % 4] if op == "add" else [1, 12, 0][n % 3]
+        if n >= 100:
+            k = len(missing) - (n - 100) % 2
         case = {"sub": "dense_big", "p": p, "a": int(a), "missing": missing, "k": k, "op": op, "seed": (job["seed"] + n) % 100,
                 "dtype": ["float", "float16", "int", "float16", "float32"][n % 5], "weighted": n % 2 == 0}
         try:
